@@ -1,4 +1,3 @@
-(* WIP *)
 (* C26, definitions: which properties Properties.Encode writes for a Properties struct ([entries],
    the encoder's suppression rules made explicit), which specification-level packet a mochi Packet
    value stands for ([abs]), which Packet values are well-formed ([wf_packet]) and the normal form
@@ -144,3 +143,53 @@ Definition wf_packet (pk : packet) : bool :=
 
 (* what decoding the encoder's output returns: the packet the encoded bytes mean *)
 Definition norm (pk : packet) (rem : N) : packet := expected (pk_version pk) (abs pk) rem.
+
+(* The Properties struct that comes back from the decoder for what Properties.Encode wrote: every
+   property that is valid for the packet type and not suppressed keeps its value; a suppressed or
+   inapplicable property reads back as "absent" (zero value, flag false).  The conditions are those
+   of [entries]. *)
+Definition norm_props (pkt : N) (m : mods) (p : props) (n : N) : props :=
+  let can k := valid_prop k pkt in
+  mkprops
+    (if can 1 && p_payload_format_flag p then p_payload_format p else 0)
+    (can 1 && p_payload_format_flag p)
+    (if can 2 && (0 <? p_message_expiry p) then p_message_expiry p else 0)
+    (if can 3 && nonempty (p_content_type p) then p_content_type p else [])
+    (if m_allow_response_info m && can 8 && nonempty (p_response_topic p)
+        && negb (has_wildcard (p_response_topic p)) then p_response_topic p else [])
+    (if m_allow_response_info m && can 9 && nonempty (p_correlation_data p) then p_correlation_data p else [])
+    (if can 11 then filter (fun v => 0 <? v) (p_sub_ids p) else [])
+    (if can 17 && p_session_expiry_flag p then p_session_expiry p else 0)
+    (can 17 && p_session_expiry_flag p)
+    (if can 18 && nonempty (p_assigned_client_id p) then p_assigned_client_id p else [])
+    (if can 19 && p_server_keep_alive_flag p then p_server_keep_alive p else 0)
+    (can 19 && p_server_keep_alive_flag p)
+    (if can 21 && nonempty (p_auth_method p) then p_auth_method p else [])
+    (if can 22 && nonempty (p_auth_data p) then p_auth_data p else [])
+    (if can 23 && p_request_problem_info_flag p then p_request_problem_info p else 0)
+    (can 23 && p_request_problem_info_flag p)
+    (if can 24 && (0 <? p_will_delay p) then p_will_delay p else 0)
+    (if can 25 && (0 <? p_request_response_info p) then p_request_response_info p else 0)
+    (if m_allow_response_info m && can 26 && nonempty (p_response_info p) then p_response_info p else [])
+    (if can 28 && nonempty (p_server_reference p) then p_server_reference p else [])
+    (if negb (m_disallow_problem_info m) && can 31 && nonempty (p_reason_string p)
+        && ((m_max_size m =? 0) || (uint32 (n + blen (encodeString (p_reason_string p)) + 1) <? m_max_size m))
+     then p_reason_string p else [])
+    (if can 33 && (0 <? p_receive_maximum p) then p_receive_maximum p else 0)
+    (if can 34 && (0 <? p_topic_alias_maximum p) then p_topic_alias_maximum p else 0)
+    (if can 35 && p_topic_alias_flag p && (0 <? p_topic_alias p) then p_topic_alias p else 0)
+    (can 35 && p_topic_alias_flag p && (0 <? p_topic_alias p))
+    (if can 36 && p_maximum_qos_flag p && (p_maximum_qos p <? 2) then p_maximum_qos p else 0)
+    (can 36 && p_maximum_qos_flag p && (p_maximum_qos p <? 2))
+    (if can 37 && p_retain_available_flag p then p_retain_available p else 0)
+    (can 37 && p_retain_available_flag p)
+    (if (negb (m_disallow_problem_info m) || (pkt =? PUBLISH)) && can 38
+        && ((m_max_size m =? 0) || (uint32 (n + blen (enc_user (p_user p)) + 1) <? m_max_size m))
+     then p_user p else [])
+    (if can 39 && (0 <? p_maximum_packet_size p) then p_maximum_packet_size p else 0)
+    (if can 40 && p_wildcard_sub_available_flag p then p_wildcard_sub_available p else 0)
+    (can 40 && p_wildcard_sub_available_flag p)
+    (if can 41 && p_sub_id_available_flag p then p_sub_id_available p else 0)
+    (can 41 && p_sub_id_available_flag p)
+    (if can 42 && p_shared_sub_available_flag p then p_shared_sub_available p else 0)
+    (can 42 && p_shared_sub_available_flag p).
